@@ -1,9 +1,9 @@
 (* Theorems about the Subscriber shutdown model (model/C15_Shutdown.v), from the invariants
-   of proofs/C15_Invariants.v. *)
+   of proofs/C15_Invariants.v and proofs/C15_Waits.v. *)
 From Coq Require Import List NArith Bool Arith Lia.
 From Lib Require Import SyncSkel LTS.
 From Model Require Import C14_Events C15_Shutdown.
-From Proofs Require Import C14_Events C15_Invariants.
+From Proofs Require Import C14_Events C15_Invariants C15_Waits.
 Import ListNotations.
 Local Close Scope string_scope.
 Local Open Scope list_scope.
